@@ -33,6 +33,8 @@ thread_local! {
     static STALE: RefCell<Vec<Waker>> = RefCell::new(Vec::new());
     static PENDS: Cell<u64> = Cell::new(0);
     static STALE_FIRED: Cell<u64> = Cell::new(0);
+    /// ids of scale streams that returned None since the last look (group oracle: forgotten in that very poll)
+    static ENDED_NEW: RefCell<Vec<u32>> = RefCell::new(Vec::new());
 }
 
 fn xs(s: &mut u64) -> u64 {
@@ -185,6 +187,7 @@ impl Stream for SS {
         self.pended = false;
         if self.next >= self.items {
             self.ended = true;
+            ENDED_NEW.with(|e| e.borrow_mut().push(self.id));
             return Poll::Ready(None);
         }
         self.next += 1;
@@ -294,6 +297,7 @@ fn fire_stale() {
 
 fn reset_counters(nkids: usize) {
     STALE.with(|s| s.borrow_mut().clear());
+    ENDED_NEW.with(|e| e.borrow_mut().clear());
     MADE.with(|m| m.set(0));
     DROPPED.with(|m| m.set(0));
     KIDS_MADE.with(|m| m.set(0));
@@ -593,10 +597,13 @@ fn big_group(cx: &mut Ctx, streams: bool, r: &mut u64) -> String {
     // member is Pending at least once (so that a whole sweep of the group sees nothing but Pending members)
     let with_removal = wave && xs(r) % 2 == 0;
     let all_pend = xs(r) % 2 == 0;
+    // stream groups: in a third of the histories 15 of 16 members are empty streams, so that whole sweeps of the group
+    // see members ending (or pending) without a single item
+    let mostly_empty = streams && xs(r) % 3 == 0;
     let total: usize = if wave { live + 50 } else { 66_000 + (xs(r) % 6_000) as usize };
     let later = xs(r) % 2 == 0;
     let cap0 = [0usize, 1, 300][(xs(r) % 3) as usize];
-    let what = format!("{}::with_capacity({cap0}): {total} inserts, {live} members live at a time{}{}, {}", if with_removal { ", 70 % removed before the first poll" } else { "" }, if all_pend { ", every member pends first" } else { "" }, if streams { "StreamGroup" } else { "FutureGroup" }, if later { "wake-later" } else { "self-wake" });
+    let what = format!("{}::with_capacity({cap0}): {total} inserts, {live} members live at a time{}{}, {}", if with_removal { ", 70 % removed before the first poll" } else if mostly_empty { ", 15 of 16 members are empty streams" } else { "" }, if all_pend { ", every member pends first" } else { "" }, if streams { "StreamGroup" } else { "FutureGroup" }, if later { "wake-later" } else { "self-wake" });
     reset_counters(0);
     let per_item = 2u32;
     let mut got: Vec<(u32, u32)> = vec![];
@@ -610,6 +617,9 @@ fn big_group(cx: &mut Ctx, streams: bool, r: &mut u64) -> String {
             let mut polls = 0u64;
             let mut live_keys = vec![];
             let mut removed_done = !with_removal;
+            let mut ended_total = 0usize;
+            let mut removed_total = 0usize;
+            ENDED_NEW.with(|e| e.borrow_mut().clear());
             'outer: loop {
                 while inserted < total && g.len() < live {
                     let id = inserted as u32;
@@ -640,6 +650,7 @@ fn big_group(cx: &mut Ctx, streams: bool, r: &mut u64) -> String {
                             break 'outer;
                         }
                         removed[*id as usize] = true;
+                        removed_total += 1;
                         finished += 1;
                     }
                     live_keys.retain(|(_, id)| *id >= cut);
@@ -653,8 +664,30 @@ fn big_group(cx: &mut Ctx, streams: bool, r: &mut u64) -> String {
                 }
                 let mut yielded: Option<u32> = None;
                 let mut none = false;
+                let mut sv_err: Option<String> = None;
+                let mut ended_total_now = ended_total;
+                let lk = &live_keys;
                 let (s, p) = drive(
-                    |c| Pin::new(&mut g).poll_next(c),
+                    |c| {
+                        let r = Pin::new(&mut g).poll_next(c);
+                        // after EVERY poll, Pending ones included: a stream member that returned None in this poll is
+                        // dropped and forgotten in this poll
+                        if $is_stream && sv_err.is_none() {
+                            let newly: Vec<u32> = ENDED_NEW.with(|e| std::mem::take(&mut *e.borrow_mut()));
+                            ended_total_now += newly.len();
+                            if g.len() != inserted - removed_total - ended_total_now {
+                                sv_err = Some(format!("len() = {} right after a poll in which members ended; {} were inserted, {} removed and {} have returned None", g.len(), inserted, removed_total, ended_total_now));
+                            }
+                            for id in newly.iter().take(64) {
+                                if let Some((k, _)) = lk.iter().find(|(_, i)| i == id) {
+                                    if g.contains_key(*k) {
+                                        sv_err = Some(format!("contains_key({k:?}) is still true right after the poll in which member {id} returned None"));
+                                    }
+                                }
+                            }
+                        }
+                        r
+                    },
                     budget.saturating_sub(polls).max(1),
                     false,
                     |o| {
@@ -669,6 +702,11 @@ fn big_group(cx: &mut Ctx, streams: bool, r: &mut u64) -> String {
                     },
                 );
                 polls += p;
+                ended_total = ended_total_now;
+                if let Some(e) = sv_err {
+                    cx.v(&[prop], format!("{what}: {e}"));
+                    break;
+                }
                 if !cx.stop(s, polls, prop, &what) {
                     break;
                 }
@@ -720,7 +758,7 @@ fn big_group(cx: &mut Ctx, streams: bool, r: &mut u64) -> String {
                     }
                     None => true,
                 });
-                if cx.stop(s, p, prop, &format!("{what}, refilled with 3 members after the final None and stale wake-ups")) && extra != 3 * if $is_stream { per_item } else { 1 } {
+                if cx.stop(s, p, prop, &format!("{what}, refilled with 3 members after the final None and stale wake-ups")) && extra != (0..3u32).map(|i| if !$is_stream { 1 } else if mostly_empty && (total as u32 + i) % 16 != 0 { 0 } else { per_item }).sum::<u32>() {
                     cx.v(&[prop], format!("{what}: after refilling the drained group with 3 members it yielded {extra} values"));
                 }
             }
@@ -729,12 +767,13 @@ fn big_group(cx: &mut Ctx, streams: bool, r: &mut u64) -> String {
             inserted
         }};
     }
-    let inserted = if streams { run_group!(StreamGroup::<SS>::with_capacity(cap0), |id: u32| SS::new(id, per_item, if all_pend { 1 } else { 2 }, later), true) } else { run_group!(FutureGroup::<SFI>::with_capacity(cap0), |id: u32| SFI(SF::new(id, if all_pend { 1 + id % 2 } else { id % 3 }, later, true)), false) };
+    let inserted = if streams { run_group!(StreamGroup::<SS>::with_capacity(cap0), |id: u32| SS::new(id, if mostly_empty && id % 16 != 0 { 0 } else { per_item }, if all_pend { 1 } else { 2 }, later), true) } else { run_group!(FutureGroup::<SFI>::with_capacity(cap0), |id: u32| SFI(SF::new(id, if all_pend { 1 + id % 2 } else { id % 3 }, later, true)), false) };
     if cx.msgs.is_empty() && cx.inconclusive.is_none() {
         if inserted != total {
             cx.v(&[prop], format!("{what}: the run ended after {inserted} inserts"));
         }
         let per_len = if streams { per_item } else { 1 };
+        let per_len_of = |i: usize| if removed[i] || (mostly_empty && i % 16 != 0) { 0 } else { per_len };
         let mut per = vec![0u32; total];
         for (s, q) in &got {
             if (*s as usize) < total && per[*s as usize] == *q {
@@ -745,7 +784,7 @@ fn big_group(cx: &mut Ctx, streams: bool, r: &mut u64) -> String {
             }
         }
         if cx.msgs.is_empty() {
-            if let Some((i, c)) = per.iter().enumerate().find(|(i, c)| **c != if removed[*i] { 0 } else { per_len }) {
+            if let Some((i, c)) = per.iter().enumerate().find(|(i, c)| **c != per_len_of(*i)) {
                 cx.v(&[prop], format!("{what}: member {i} ({}) has {per_len} item(s) but {c} were yielded", if removed[i] { "removed before it was ever polled" } else { "never removed" }));
             }
         }
